@@ -55,7 +55,8 @@ def c11_shapes(tier):
         for k in kinds:
             out.append((k, 1, 1, 1, 1, 0, 1, 0))
             out.append((k, 0, 1, 1, 1, 0, 1, 0))
-        out += [(0, 1, 2, 1, 0, 1, 1, 0), (4, 1, 2, 1, 0, 1, 1, 0), (7, 1, 2, 1, 0, 0, 1, 0), (1, 1, 1, 1, 0, 0, 1, 1), (3, 1, 2, 2, 0, 0, 1, 0)]
+        out += [(0, 1, 2, 1, 0, 1, 1, 0), (4, 1, 2, 1, 0, 1, 1, 0), (7, 1, 2, 1, 0, 0, 1, 0), (1, 1, 1, 1, 0, 0, 1, 1), (3, 1, 2, 2, 0, 0, 1, 0),
+                (2, 1, 1, 1, 2, 0, 1, 0), (2, 0, 1, 1, 2, 0, 1, 0), (5, 1, 1, 1, 2, 0, 1, 0)]
         return out
     for k in kinds:
         for pr in (0, 1):
@@ -63,7 +64,8 @@ def c11_shapes(tier):
             out.append((k, pr, 1, 1, 1, 0, 2, 0))
         out.append((k, 1, 1, 1, 0, 0, 1, 1))
     out += [(0, 1, 3, 2, 0, 1, 1, 0), (4, 0, 3, 2, 0, 1, 1, 0), (7, 1, 3, 2, 1, 0, 1, 0), (7, 0, 2, 3, 0, 0, 1, 0),
-            (3, 1, 2, 2, 1, 0, 1, 0), (3, 0, 2, 2, 0, 0, 1, 0), (3, 1, 3, 2, 0, 0, 1, 0)]
+            (3, 1, 2, 2, 1, 0, 1, 0), (3, 0, 2, 2, 0, 0, 1, 0), (3, 1, 3, 2, 0, 0, 1, 0),
+            (2, 1, 2, 1, 2, 0, 1, 0), (2, 0, 2, 1, 2, 0, 2, 0), (5, 1, 2, 1, 2, 0, 1, 0), (5, 0, 1, 1, 2, 0, 2, 0)]
     return out
 
 def c05h_shapes(tier):
@@ -196,7 +198,7 @@ def c08_shapes(tier):
     # (q, cold factor, period, lemma)
     out = []
     if tier == 'quick':
-        for q, c, p in [(30, 3, 1), (100, 2, 1), (60, 0, 2), (30, 6, 5)]:
+        for q, c, p in [(30, 3, 1), (100, 2, 1), (60, 0, 2), (30, 6, 5), (31, 3, 2), (40, 0, 10)]:
             out += [(q, c, p, l) for l in (1, 2, 3, 4, 5)]
         return out
     for q in (30, 100, 500):
@@ -225,12 +227,13 @@ def c15_shapes(tier):
     # (family, op thread 1, op thread 2, preemption bound, entry thread, reading listener, 1 + hash-order deviations)
     if tier == 'quick':
         out = [(fam, 3, 1, 1, 0, 0, 2) for fam in range(5)]
+        out += [(fam, 3, 4, 1, 0, 0, 2) for fam in range(5)] + [(fam, 3, 5, 1, 0, 0, 2) for fam in range(4)]
         out += [(1, 2, 0, 1, 0, 0, 2), (2, 3, 2, 1, 0, 0, 2), (3, 2, 4, 1, 0, 0, 2), (1, 3, 8, 1, 0, 0, 1), (0, 2, 8, 1, 0, 0, 2), (1, 1, 6, 1, 0, 1, 1), (3, 5, 8, 1, 0, 0, 2),
                 (0, 3, 2, 1, 0, 0, 2), (3, 3, 2, 1, 0, 0, 2), (4, 3, 0, 1, 0, 0, 2)]
         return out
     out = []
     for fam in range(5):
-        for a, b in [(3, 1), (2, 0), (3, 2), (4, 1), (5, 2), (1, 7), (3, 6), (0, 8), (2, 8), (3, 8), (4, 8), (3, 0), (3, 4), (2, 1)]:
+        for a, b in [(3, 1), (2, 0), (3, 2), (4, 1), (5, 2), (1, 7), (3, 6), (0, 8), (2, 8), (3, 8), (4, 8), (3, 0), (3, 4), (2, 1), (3, 5), (2, 4), (1, 4)]:
             if fam == 4 and (a in (2, 5, 7) or b in (2, 5, 7)):
                 continue
             out.append((fam, a, b, 1, 0, 0, 2))
@@ -240,8 +243,8 @@ def c15_shapes(tier):
 def c16_shapes(tier):
     # (situation, preemption bound, strategy)
     if tier == 'quick':
-        return [(0, 1, 2), (1, 1, 2), (2, 1, 2), (0, 1, 1)]
-    return [(0, 2, 2), (1, 2, 2), (2, 1, 2), (0, 2, 1), (1, 2, 1), (2, 1, 1)]
+        return [(0, 1, 2), (1, 1, 2), (2, 1, 2), (0, 1, 1), (3, 1, 2), (4, 1, 2), (3, 1, 1)]
+    return [(0, 2, 2), (1, 2, 2), (2, 1, 2), (0, 2, 1), (1, 2, 1), (2, 1, 1), (3, 2, 2), (4, 2, 2), (3, 2, 1), (4, 2, 1)]
 
 def c20_shapes(tier):
     # (requests, isolation threshold, fallback, role, drop-first-future)
@@ -272,7 +275,7 @@ PROPS = {
         'bounds': 'twin construction: resources A and B carry equal rule pairs (a main rule of the kind under test with threshold 1-2 plus a wide side rule) and receive identical traffic at the same virtual instants; '
                   'kinds: flow reject on the resource window, flow reject on a private 700 ms window, flow throttling, flow warm-up (4 per second, period 1 s, gaps from {0, 400, 1000} ms), hotspot QPS reject, hotspot throttling, hotspot concurrency, circuit breaker (error count 1, retry 400 ms); '
                   '1-2 (quick) / up to 3 traffic steps before and 1-3 after a reload of A as freshly built equal rules with other ids in reversed order, through load-for-resource or through load-all with a new resource C in the same call; '
-                  'symbolic gaps of 0-600 ms between steps, admitted pairs exit, exit with an error (breaker) or stay in flight (concurrency) by symbolic choice; finally A\'s main rule is changed and must decide the very next entry; '
+                  'symbolic gaps of 0-600 ms between steps, admitted pairs exit, exit with an error (breaker) or stay in flight (concurrency) by symbolic choice; finally A\'s main rule is changed (threshold; for throttling rules also only the pace) and must decide the very next entries; '
                   'hash-container iteration orders: at most 1 (thorough: 2) iterations per run deviate from insertion order, every placement explored',
         'assumptions': ['virtual clock', 'chains of the slots the kind exercises; one shape per tier with the complete global chain', 'warm-up rules are driven with gaps from a three-element set (their refill arithmetic concretises the elapsed time)'],
         'scenarios': [
@@ -283,9 +286,9 @@ PROPS = {
     'C15': {
         'level': 'model_checking',
         'bounds': 'two threads, each one manager operation of the same family out of {load-all {A1}, load-all {A1,A2,B1}, load-for-resource r1 {A2}, append A2, clear, clear-resource r1, get_rules, get_rules_of_resource, build+exit an entry on r1} '
-                  '(quick: 10 pairs over the five families, thorough: 11 pairs per family, selected triples with an entry thread), starting from a manager holding {A1}; every interleaving at visible operations with at most 1 preemption (thorough: 2 for two pairs); at most 1 hash-container iteration of the racing operations deviating from insertion order (0 for two quick shapes, unbounded for two thorough ones); '
+                  '(quick: append against load-all, clear and clear-resource in every family plus 10 more pairs, thorough: 17 pairs per family, selected triples with an entry thread), starting from a manager holding {A1}; every interleaving at visible operations with at most 1 preemption (thorough: 2 for two pairs); at most 1 hash-container iteration of the racing operations deviating from insertion order (0 for two quick shapes, unbounded for two thorough ones); '
                   'circuit breaker additionally with a state-change listener whose callbacks call get_rules_of_resource / get_breakers_of_resource; afterwards every manager must answer get_rules and accept clear + append',
-        'assumptions': ['deadlock = a state in which no thread can run, or a thread re-acquiring a lock it holds', 'sequentially consistent memory', 'a deadlock is confirmed natively by a stress replay that hangs (5 s timeout) under delay injection at the library sync points'],
+        'assumptions': ['deadlock = a state in which no thread can run, or a thread re-acquiring a lock it holds', 'sequentially consistent memory', 'a deadlock is confirmed natively by a replay that hangs (schedule imposed with gdb, or stress replay with delay injection at the library sync points)'],
         'scenarios': [
             {'name': 'c15_managers', 'threads': True, 'shapes': {'quick': c15_shapes('quick'), 'thorough': c15_shapes('thorough')},
              'witnesses': ['joined'], 'selftest': {'quick': 4, 'thorough': 10}},
@@ -294,7 +297,7 @@ PROPS = {
     'C16': {
         'level': 'model_checking',
         'bounds': 'one breaker (error count threshold 1 or error ratio 0.5, min_request_amount 1, retry 400 ms) and 2-3 threads around each transition: (0) two failing completions that each would open it, '
-                  '(1) two requests arriving after the retry timeout, (2) the probe completion racing a new request and a stale failing completion; every interleaving at visible operations with at most 1 (quick) / 2 preemptions; clock fixed during the race',
+                  '(1) two requests arriving after the retry timeout, (2) the probe completion racing a new request and a stale failing completion, (3) a failing probe racing a new request, (4) an opening failure racing a new request; every interleaving at visible operations with at most 1 (quick) / 2 preemptions; clock fixed during the race',
         'assumptions': ['sequentially consistent memory', 'chain of the real breaker check and statistic slots plus a slot that records the round trip'],
         'scenarios': [
             {'name': 'c16_breaker_race', 'threads': True, 'shapes': {'quick': c16_shapes('quick'), 'thorough': c16_shapes('thorough')},
@@ -307,7 +310,7 @@ PROPS = {
                   'operations (lock acquire/release, atomic operations, spawn/join, yield, the library sync points) with at most 1 (quick) / 2 (thorough, 2 threads) preemptions; clock fixed inside a bucket, or stepped into the next bucket by thread 0 after its first entry; '
                   'chain of the real prepare and resource-statistic slots',
         'assumptions': ['sequentially consistent memory', 'initialisers of lazy statics and Once run without preemption (std blocks concurrent callers)',
-                        'a schedule-dependent counterexample is confirmed natively by a stress replay with delay injection at the library sync points and randomised thread start offsets (up to 1600 runs, 16 at a time, at most 60 s); one that never reproduces is reported as inconclusive, not as a violation'],
+                        'a schedule-dependent counterexample is confirmed natively by imposing its preemptions on the debug binary with gdb (non-stop mode: the preempted thread is held at the source line of the preemption while the others run), failing that by a stress replay with delay injection and randomised thread start offsets (up to 1600 runs); one that never reproduces is reported as inconclusive, not as a violation'],
         'scenarios': [
             {'name': 'c14_shared_node', 'threads': True, 'shapes': {'quick': c14_shapes('quick'), 'thorough': c14_shapes('thorough')},
              'witnesses': ['joined'], 'selftest': {'quick': 4, 'thorough': 8}},
@@ -330,7 +333,7 @@ PROPS = {
     'C08': {
         'level': 'model_checking',
         'bounds': 'inductive steps of the real warm-up calculator from an arbitrary state: stored tokens in [0, max_token], one time step of 0..2p+2 s (idle lemma: 2p..5p s) at any millisecond phase, '
-                  'previous-interval pass count in [0, q]; (q, cold factor, period) concrete per shape: quick {(30,3,1),(100,2,1),(60,default,2),(30,6,5)}, thorough all of q in {30,100,500} x c in {default,2,3,6} x p in {1,5,20} '
+                  'previous-interval pass count in [0, q]; (q, cold factor, period) concrete per shape: quick {(30,3,1),(100,2,1),(60,default,2),(30,6,5),(31,3,2),(40,default,10)} (the last two with q not a multiple of c), thorough all of q in {30,100,500} x c in {default,2,3,6} x p in {1,5,20} '
                   'with q >= 10c whose token range stays enumerable; plus the ramp trajectory itself (2p+2 one-second steps from cold under the slowest saturating demand, symbolic millisecond phase) for every listed (q, c, p) - other saturating demands follow from lemmas 2 and 3 by the monotonicity argument in DESIGN.md, not from a solver run',
         'assumptions': ['the calculator is wired to a controller like the built-in generator does, with a harness ReadStat supplying the previous-interval pass count', 'state set/read through the verif_state hooks',
                         'float results compared with 1e-9 relative tolerance (the implementation nudges by one ulp)',
